@@ -230,6 +230,18 @@ def derivation_hooks(m):
     h["<bitcoin::bip32::DerivationPath as std::convert::From<std::vec::Vec<bitcoin::bip32::ChildNumber>>>::from"] = \
         lambda m_, a, c: PyVec(list(deref(a[0]).items))
     h["<bitcoin::bip32::DerivationPath as std::convert::AsRef<[bitcoin::bip32::ChildNumber]>>::as_ref"] = lambda m_, a, c: deref(a[0])
+    from .. import builtins as _B
+
+    def into_path(m_, a, c):
+        v = deref(a[0])
+        tg = " ".join(c.get("targs") or [])
+        if isinstance(v, PyVec) and "DerivationPath" in tg:
+            return PyVec(list(v.items))
+        return _B.NOT_HANDLED
+    h["<T as std::convert::Into<U>>::into"] = into_path
+    h["bitcoin::bip32::Xpriv::derive_priv"] = lambda m_, a, c: ok(("xprv-derived", deref(a[0]), tuple((x.variant, x.fields["index"]) for x in deref(a[2]).items)))
+    h["bitcoin::bip32::Xpub::from_priv"] = lambda m_, a, c: ("xkey", ("pub-of", deref(a[1])))
+    h["bitcoin::bip32::Xpriv::fingerprint"] = lambda m_, a, c: ("fingerprint-of", deref(a[0]))
     h["bitcoin::bip32::Xpub::derive_pub"] = lambda m_, a, c: ok(Adt("bitcoin::bip32::Xpub", "Xpub", {
         "public_key": ("derived", deref(a[0]), tuple((x.variant, x.fields["index"]) for x in deref(a[2]).items))}))
     h["bitcoin::PublicKey::new"] = lambda m_, a, c: Adt("bitcoin::PublicKey", "PublicKey", {"compressed": True, "inner": deref(a[0])})
@@ -601,6 +613,139 @@ def check_tr_output(chk, F):
         chk.fail(rid, "unanalysable", "unanalysable: %s" % e, where, kind="unanalysable")
 
 
+# ---- R16.8 secret keys: public counterpart; R10.9 text form -------------------------------------------------------------
+
+def secret_texts():
+    from . import c10
+    XPRV = "xprv" + c10.XPUB[4:]
+    out = []
+    for o in ("", "[deadbeef/9']", "[00000000/1/2']"):
+        for path in ("", "/0/1", "/0'", "/0'/1", "/0'/1/2'/3", "/1/2'"):
+            for wc in ("", "/*", "/*h"):
+                out.append(o + XPRV + path + wc)
+        for mp in ("/<0;1>/*", "/7'/<0;1>/*", "/7'/3/<0;1;2>/4/*", "/<0';1'>/*", "/1/<2;3'>", "/5'/<0;1>/6'"):
+            out.append(o + XPRV + mp)
+    return XPRV, out
+
+
+def check_secret_keys(chk, F, rid="R16.8", text_rule=None):
+    from . import c10
+    from .. import builtins as B, textmodel as tm
+    from ..interp import Panic
+    from ..builtins import deref
+    if text_rule is None:
+        chk.rule(rid, "DescriptorSecretKey::to_public: the public key expression of an extended private key derives the same keys - "
+                      "the hardened prefix of the path (up to the last hardened step; for multipath keys: of the shared prefix) is "
+                      "applied to the private key and moved into the origin (fingerprint kept, or the key's own when there was "
+                      "none), the rest stays as path(s) with the same wildcard, so origin path + path is unchanged; a hardened step "
+                      "inside the alternatives is refused")
+    else:
+        chk.rule(text_rule, "secret key expressions (extended private keys x origin x path x multipath x wildcard) parse, print back as "
+                            "the same text, and that text parses to an equal key")
+    DSK = "descriptor::key::DescriptorSecretKey"
+    try:
+        fs = [it["path"] for i in F.impls if i["trait"] == "std::str::FromStr" and i["self_adt"] == DSK for it in i["items"] if it["name"] == "from_str"][0]
+        tp = [q for q in F.fns if q.endswith("DescriptorSecretKey::to_public")][0]
+    except IndexError:
+        chk.fail(text_rule or rid, "anchor", "DescriptorSecretKey::from_str / to_public not found", kind="unanalysable")
+        return
+    chk.saw(fs, tp)
+    m = c10.key_machine(F)
+    derivation_hooks(m)
+    XPRV, texts = secret_texts()
+    orig = B.fmt_value
+    B.fmt_value = c10._key_fmt_value(orig)
+    n = 0
+
+    def steps(v):
+        return [(x.variant, x.fields["index"]) for x in deref(v).items]
+    try:
+        for t in texts:
+            key = t.replace(XPRV, "XPRV")
+            R = text_rule or rid
+            try:
+                r = m.call_path(fs, [t])
+                if r.variant != "Ok":
+                    chk.fail(R, key, "the secret key expression does not parse: %s" % repr(r)[:160], where="src/descriptor/key.rs")
+                    continue
+                sk = r.fields["0"]
+                n += 1
+                if text_rule is not None:
+                    out, _ = tm.display(m, sk)
+                    p1 = "".join(map(str, out))
+                    r2 = m.call_path(fs, [p1])
+                    good = p1 == t and r2.variant == "Ok" and c10.pstrip(r2.fields["0"]) == c10.pstrip(sk)
+                    chk.obligation(R, good, key, "prints as %s, which parses to %s" % (p1.replace(XPRV, "XPRV"), repr(r2)[:100]),
+                                   where="src/descriptor/key.rs")
+                    continue
+                sp = spec_key(t.replace(XPRV, c10.XPUB))       # same grammar; the base is put back below
+                paths = sp["paths"]
+                res = m.call_path(tp, [sk, Term("secp")])
+                # specification
+                if paths is None:
+                    continue
+                if len(paths) == 1:
+                    shared = paths[0]
+                    suffixes = [[]]
+                else:
+                    k = 0
+                    while all(len(p_) > k for p_ in paths) and len(set(p_[k] for p_ in paths)) == 1:
+                        k += 1
+                    shared = paths[0][:k]
+                    suffixes = [p_[k:] for p_ in paths]
+                bad_suffix = any(kd == "Hardened" for sfx in suffixes for kd, _ in sfx)
+                last_h = max([i for i, (kd, _) in enumerate(shared) if kd == "Hardened"] + [-1]) + 1
+                hard, rest = shared[:last_h], shared[last_h:]
+                if bad_suffix:
+                    chk.obligation(R, res.variant == "Err", key, "a hardened step inside the alternatives is accepted: %s" % repr(res)[:200],
+                                   where="src/descriptor/key.rs")
+                    continue
+                if res.variant != "Ok":
+                    chk.fail(R, key, "to_public fails: %s" % repr(res)[:200], where="src/descriptor/key.rs")
+                    continue
+                pk = deref(res.fields["0"])
+                inner = pk.fields["0"]
+                bad = []
+                want_x = ("xkey", ("pub-of", ("xprv-derived", ("xkey", XPRV), tuple(hard))))
+                if repr(inner.fields["xkey"]) != repr(want_x):
+                    bad.append("public key of %r, expected the key derived along the hardened prefix %r" % (inner.fields["xkey"], hard))
+                o = inner.fields["origin"]
+                if sp["origin"]:
+                    want_o = (sp["origin"][0], sp["origin"][1] + hard)
+                elif hard:
+                    want_o = (repr(("fingerprint-of", ("xkey", XPRV))), hard)
+                else:
+                    want_o = None
+                if o.variant == "None":
+                    got_o = None
+                else:
+                    fp, op_ = o.fields["0"]
+                    fpd = deref(fp)
+                    got_o = ("".join("%02x" % b for b in fpd.items) if hasattr(fpd, "items") else repr(fpd), steps(op_))
+                if got_o != want_o:
+                    bad.append("origin %r, expected %r" % (got_o, want_o))
+                if pk.variant == "XPub":
+                    got_p = [steps(inner.fields["derivation_path"])]
+                else:
+                    dp = inner.fields["derivation_paths"]
+                    ps_ = dp.fields["0"] if "0" in dp.fields else list(dp.fields.values())[0]
+                    got_p = [steps(x) for x in deref(ps_).items]
+                want_p = [rest + sfx for sfx in suffixes]
+                if got_p != want_p:
+                    bad.append("path(s) %r, expected %r" % (got_p, want_p))
+                if inner.fields["wildcard"].variant != sp["wildcard"]:
+                    bad.append("wildcard %s, expected %s" % (inner.fields["wildcard"].variant, sp["wildcard"]))
+                chk.obligation(R, not bad, key, "; ".join(bad[:2]).replace(XPRV, "XPRV")[:700], where="src/descriptor/key.rs")
+            except Unsupported as e:
+                chk.fail(R, "unanalysable:" + key, "unanalysable: %s" % e, where=e.where, kind="unanalysable")
+                break
+            except Panic as e:
+                chk.fail(R, key, "panic: %s" % e, where="src/descriptor/key.rs")
+    finally:
+        B.fmt_value = orig
+    chk.floor(text_rule or rid, "secret key expressions", n, 60)
+
+
 def run(chk):
     F = chk.facts()
     chk.explanation = (
@@ -621,3 +766,4 @@ def run(chk):
     else:
         chk.guard("R16.6", "descriptor-split", check_descriptor_split, chk, F)
     chk.guard("R16.7", "tr-output", check_tr_output, chk, F)
+    chk.guard("R16.8", "secret-keys", check_secret_keys, chk, F)
